@@ -8,6 +8,6 @@ theorem outside_prefix_404 (x : Ext) (ml : List ModVer) (st : Store) (who : Byte
   simp [handler, h]
 
 example : handler ⟨fun _ => [], fun _ => []⟩ [] [] (fun _ => none) (lit "/x/example.com/a/@v/list") = .notFound :=
-  outside_prefix_404 _ _ _ _ _ (by decide)
+  outside_prefix_404 _ _ _ _ _ (by decide +kernel)
 
 end GIV.C20
